@@ -228,10 +228,15 @@ def run(ctx):
     for part in common.pmap(work, tasks):
         acc += part
     ctx.layer('itp-roundtrip', acc)
+    from props import cli_topology
+    cli_topology.run_layer(ctx)
 
 
 def replay(case):
     common.bind_repo()
+    if case.get('layer') == 'cli-topology':
+        from props import cli_topology
+        return cli_topology.replay(case)
     acc = Acc()
     check(case['keys'], case['atomids'], tuple(case['interactions']), case['charge_mass'], acc)
     return [(s, d) for s, d, _ in acc.violations]
